@@ -1152,7 +1152,6 @@ package pub
 //@ loop 1 [C20] invariant kept_are_seen: forall j Int :: {oi.At(j)} 0 <= j && j < i ==> has(seen, ekey(oi.At(j))) && seen[ekey(oi.At(j))]
 //@ loop 1 [C20] invariant kept_distinct: forall j Int, k Int :: {oi.At(j), oi.At(k)} 0 <= j && j < k && k < i ==> ekey(oi.At(j)) != ekey(oi.At(k))
 //@ loop 1 [C20] invariant every_old_accounted: forall k Int :: {gKept[k]} 0 <= k && k < i + gR ==> (gKept[k] >= 0 ==> gKept[k] < i && gSrc[gKept[k]] == k) && (gKept[k] < 0 ==> 0 <= gDup[k] && gDup[k] < i && gSrc[gDup[k]] < k && ekey(oi.At(gDup[k])) == ekey(atv(old(ASHP), oi, k)))
-//@ loop 1 [C20] decreases oi.Len() - i
 //@ [C20] ensures subsequence: result == nil && old(props[oc]["ActivityStreamsOrderedItems"]) != nil ==> props[oc]["ActivityStreamsOrderedItems"] == old(props[oc]["ActivityStreamsOrderedItems"]) && props[oc]["ActivityStreamsOrderedItems"].Len() + gR == lenv(old(ASHP), props[oc]["ActivityStreamsOrderedItems"]) && (forall j Int :: {props[oc]["ActivityStreamsOrderedItems"].At(j)} 0 <= j && j < props[oc]["ActivityStreamsOrderedItems"].Len() ==> 0 <= gSrc[j] && gSrc[j] < lenv(old(ASHP), props[oc]["ActivityStreamsOrderedItems"]) && props[oc]["ActivityStreamsOrderedItems"].At(j) == atv(old(ASHP), props[oc]["ActivityStreamsOrderedItems"], gSrc[j])) && (forall j Int, k Int :: {gSrc[j], gSrc[k]} 0 <= j && j < k && k < props[oc]["ActivityStreamsOrderedItems"].Len() ==> gSrc[j] < gSrc[k])
 //@ [C20] ensures no_duplicates_left: result == nil && old(props[oc]["ActivityStreamsOrderedItems"]) != nil ==> (forall j Int, k Int :: {props[oc]["ActivityStreamsOrderedItems"].At(j), props[oc]["ActivityStreamsOrderedItems"].At(k)} 0 <= j && j < k && k < props[oc]["ActivityStreamsOrderedItems"].Len() ==> ekey(props[oc]["ActivityStreamsOrderedItems"].At(j)) != ekey(props[oc]["ActivityStreamsOrderedItems"].At(k)))
 //@ [C20] ensures dropped_are_later_duplicates: result == nil && old(props[oc]["ActivityStreamsOrderedItems"]) != nil ==> (forall k Int :: {gKept[k]} 0 <= k && k < lenv(old(ASHP), props[oc]["ActivityStreamsOrderedItems"]) ==> (gKept[k] >= 0 ==> gKept[k] < props[oc]["ActivityStreamsOrderedItems"].Len() && gSrc[gKept[k]] == k) && (gKept[k] < 0 ==> 0 <= gDup[k] && gDup[k] < props[oc]["ActivityStreamsOrderedItems"].Len() && gSrc[gDup[k]] < k && ekey(props[oc]["ActivityStreamsOrderedItems"].At(gDup[k])) == ekey(atv(old(ASHP), props[oc]["ActivityStreamsOrderedItems"], k))))
